@@ -472,6 +472,27 @@ def max_value(t):
     return {f.name: max_value(f.data_type) for f in it.fields_except_padding}
 
 
+def min_value(t, which=0):
+    """The opposite extreme: every integer at its minimum, every float at the most negative finite value of its format, arrays at
+    capacity, union option number `which` (modulo the number of options)."""
+    if isinstance(t, pydsdl.BooleanType):
+        return False
+    if isinstance(t, pydsdl.IntegerType):
+        return int(t.inclusive_value_range.min)
+    if isinstance(t, pydsdl.FloatType):
+        return -FMAX[t.bit_length]
+    if isinstance(t, pydsdl.ArrayType):
+        n = t.capacity if t.capacity <= 300 else (t.capacity if isinstance(t, pydsdl.FixedLengthArrayType) else 300)
+        if isinstance(t.element_type, pydsdl.UTF8Type):
+            return [0] * n
+        return [min_value(t.element_type, which)] * n
+    it = inner(t)
+    if isinstance(it, pydsdl.UnionType):
+        f = it.fields[which % len(it.fields)]
+        return {f.name: min_value(f.data_type, which)}
+    return {f.name: min_value(f.data_type, which) for f in it.fields_except_padding}
+
+
 # ------------------------------------------------------------------------------------------------ value stream (harness I/O)
 def vs_write(t, v, out, clip=True):
     """Serialises a value into the harness' value stream: 8 bytes per scalar (little endian; floats as raw IEEE bits of the
